@@ -759,18 +759,36 @@ def enum_with_defaults(ctx):
                                  % (val, wd_uri, r['exc'], len(r['sent'])), sig=None, expected='rejected locally, nothing sent',
                                  actual=[r['exc'], len(r['sent'])])
 
+# ---------------- vendor operation classes (third_party/*/rpc.py): tools/harness/vendorops.py ----------------
+def vendor_cases(ctx):
+    """every modelled vendor class x the profile that ships it: model (VendorBuilders.v, runner fn 6) vs captured request read by
+    the independent reader, and the vendor-schema + path-assertion oracle"""
+    from harness import vendorops
+    vendorops.run(ctx)
+
 def run(ctx):
     from vlib import paths
+    from harness import vendorops
     enum_with_defaults(ctx)
     for f in sorted(glob.glob(os.path.join(paths.CORPUS, 'C07', '*.json'))):
-        run_cases(ctx, [json.load(open(f))['case']])
+        c = json.load(open(f))['case']
+        if 'vop' in c: vendorops.run_vendor_cases(ctx, [c])
+        else: run_cases(ctx, [c])
+    vendor_cases(ctx)
     escape_micro(ctx, ctx.rng, 300 if ctx.tier == 'quick' else 5000)
     run_cases(ctx, shadow_cases())
     run_cases(ctx, gen_cases(ctx.rng, ctx.tier))
 
 def search(ctx, seeds):
-    tries = list(seeds) + gen_cases(ctx.rng, 'quick')
+    from harness import vendorops
+    from vlib import findings
+    tries = list(seeds) + vendorops.gen_vendor_cases(ctx.rng, 'quick') + gen_cases(ctx.rng, 'quick')
     for case in tries:
+        if 'vop' in case:
+            try: r, j = vendorops.judge(case)
+            except Exception: continue
+            if j and not findings.covered(ID, j[1]): return dict(case=json.loads(key_of(case)), what=j[0], sig=j[1], expected='vendor schema instance / local rejection', actual={'exc': r['exc'], 'sent': [x[:400] for x in r['sent']]})
+            continue
         if 'op' not in case: continue
         try:
             r = impl_run(case)
@@ -782,6 +800,9 @@ def search(ctx, seeds):
 
 def reproduce(finding):
     case = finding['witness']
+    if 'vop' in case:
+        from harness import vendorops
+        return vendorops.judge(case)[1] is not None
     r = impl_run(case)
     return oracle(case, r, case['profile'] in DEFAULT_NS_PROFILES, case['profile'] == 'iosxe') is not None
 
@@ -798,6 +819,14 @@ def replay(doc):
     if doc.get('case', {}).get('check') == 'enum_with_defaults':
         return _replay_enum(doc['case'])
     case = doc['case']
+    if 'vop' in case:
+        from harness import vendorops
+        r, j = vendorops.judge(case)
+        print('case     :', case)
+        print('expected : instance of the vendor schema carrying the caller data, or local rejection:', vendorops.expected_rejection(case))
+        print('actual   :', {'exc': r['exc'], 'sent': [x[:600] for x in r['sent']]})
+        if j: print('verdict  :', j)
+        return j is None
     if 'op' not in case:
         print('case is a micro-check of the escaping model:', case); return True
     r = impl_run(case)
